@@ -31,6 +31,7 @@ C_FUNCS = [
     ("trees.c", "tsk_tree_get_parent"), ("trees.c", "tsk_tree_get_branch_length_unsafe"), ("trees.c", "tsk_tree_get_branch_length"),
     ("trees.c", "tsk_tree_get_depth_unsafe"), ("trees.c", "tsk_tree_get_depth"), ("trees.c", "tsk_tree_is_descendant"),
     ("trees.c", "tsk_tree_get_mrca"), ("trees.c", "tsk_tree_get_num_tracked_samples"),
+    ("trees.c", "tsk_tree_get_time"), ("trees.c", "tsk_tree_get_num_samples"),
     # row getters of the tree sequence: accepted iff 0 <= index < number of rows
     ("trees.c", "tsk_treeseq_get_node"), ("trees.c", "tsk_treeseq_get_edge"), ("trees.c", "tsk_treeseq_get_migration"),
     ("trees.c", "tsk_treeseq_get_mutation"), ("trees.c", "tsk_treeseq_get_population"), ("trees.c", "tsk_treeseq_get_provenance"),
